@@ -96,12 +96,28 @@ Definition per_cell (f : list velem -> GdsData.gstruct -> bool) (L : library) (g
 
 Definition b2z (b : bool) (w : Z) : Z := if b then w else 0.
 
+(** a rectangle that comes back as a rectangle keeps its two corner points as given (not only the area they span: [raw_equivb]
+    compares shapes modulo representation because a four-point axis-parallel polygon comes back as a rectangle) *)
+Definition rect_exactb (v v' : velem) : bool :=
+  match v_shape v, v_shape v' with
+  | Rect p0 p1, Rect q0 q1 => point_eqb p0 q0 && point_eqb p1 q1
+  | _, _ => true
+  end.
+Definition rects_exact_cellb (L L' : library) (c : cell) : bool :=
+  existsb (fun c' =>
+    String.eqb (c_name c') (c_name c) &&
+    match cell_view (lib_layers L) (lib_cells L) c, cell_view (lib_layers L') (lib_cells L') c' with
+    | Some (_, ev), Some (_, ev') => forall2b rect_exactb ev ev'
+    | _, _ => false
+    end) (lib_cells L').
+Definition rects_exactb (L L' : library) : bool := forallb (rects_exact_cellb L L') (lib_cells L).
+
 Definition c07_check (cfg : xcfg) (L : library) (gr : gres) (rr : rres) : Z :=
   let ex := exportableb L in
   let inside := match gr with GOk g => per_cell labels_inside_cell L g | _ => false end in
   let popen := match gr with GOk g => per_cell paths_open_cell L g | _ => false end in
   let unamb := match gr with GOk g => per_cell texts_unambiguous_cell L g | _ => false end in
-  let requiv := match rr with ROk L' => raw_equivb L L' | _ => false end in
+  let requiv := match rr with ROk L' => raw_equivb L L' && rects_exactb L L' | _ => false end in
   let prop_ok := negb ex || (inside && popen && (negb unamb || requiv)) in
   let model_eq := export_eqb cfg L gr && units_import_eqb cfg gr rr in
   code prop_ok model_eq + b2z ex 10 + b2z unamb 100 + b2z inside 1000 + b2z popen 10000 + b2z requiv 100000.
